@@ -9,16 +9,6 @@ From Aldrin Require Import gen.BrokerConsts Broker.Model Broker.Run Broker.OutKi
 From Coq Require Import Lia.
 Local Open Scope N_scope.
 
-(* ---------------------------------------------------------------- lookups *)
-Lemma svc_by_cookie_Some s c k sv : svc_by_cookie s c = Some (k, sv) ->
-  svcs s !! k = Some sv /\ s_cookie sv = c.
-Proof.
-  unfold svc_by_cookie. destruct (list_find _ _) as [[i [k' sv']]|] eqn:E; cbn; [|discriminate].
-  intros [= -> ->]. apply list_find_Some in E as (E1 & E2 & _).
-  apply elem_of_list_lookup_2, elem_of_map_to_list in E1. cbn in E2.
-  apply bool_decide_unpack in E2. auto.
-Qed.
-
 (* ---------------------------------------------------------------- handler equations *)
 (* [x] is a call request the broker accepts from a connection in state [cs] *)
 Definition is_call (cs : cstate) (x : msg) (serial : N) (sc : uuid) (fn : N) (fver : option N) (v : payload) : Prop :=
@@ -70,15 +60,6 @@ Lemma handle_AbortFunctionCall m c cs serial f b : conns (ms m) !! c = Some cs -
     | None => Done m
     end.
 Proof. intros H. unfold handle. rewrite H. unfold gate, ver_of. rewrite H. reflexivity. Qed.
-
-(* a step whose handler is Done with an empty work queue *)
-Lemma step_message_idle s c x f b m :
-  handle (m_init s) c x f b = Done m -> mw m = work0 ->
-  step s (Message c x) f b = Done (ms m, mo m).
-Proof.
-  intros H Hw. rewrite step_unfold. cbn [step_handler]. fold (m_init s). rewrite H.
-  rewrite settle_idle by exact Hw. reflexivity.
-Qed.
 
 (* ---------------------------------------------------------------- (a) unknown service *)
 (* a call to a cookie that names no service: the caller gets InvalidService with its own serial,
@@ -328,4 +309,81 @@ Proof.
       * cbn. apply lookup_insert.
       * reflexivity.
     + cbn. apply lookup_delete.
+Qed.
+
+(* ---------------------------------------------------------------- (e) the service is destroyed *)
+(* which replies [remove_service] queues: InvalidService for exactly the non-aborted calls of the
+   service; the calls themselves are deleted (all of them, aborted or not) *)
+Theorem destroyed_calls m cookie k sv m' :
+  svc_by_cookie (ms m) cookie = Some (k, sv) -> remove_service m cookie = Done m' ->
+  (forall b, b ∈ s_calls sv -> calls (ms m') !! b = None) /\
+  (forall b, b ∉ s_calls sv -> calls (ms m') !! b = calls (ms m) !! b) /\
+  (exists new, w_rm_call (mw m') = new ++ w_rm_call (mw m) /\
+     length new = length (List.filter (fun b => match calls (ms m) !! b with Some cl => negb (c_aborted cl) | None => false end)
+                                      (elements (s_calls sv))) /\
+     forall serial c r, (serial, c, r) ∈ new <->
+       r = CRInvalidService /\
+       exists b cl, b ∈ s_calls sv /\ calls (ms m) !! b = Some cl /\ c_aborted cl = false /\
+                    c_serial cl = serial /\ c_caller cl = c) /\
+  conns (ms m') = conns (ms m) /\ mo m' = mo m.
+Proof.
+  intros Hs Hr. destruct (remove_service_spec _ _ _ _ _ Hs Hr) as (_ & H2 & H3 & _ & _ & H6 & _).
+  split; [|split; [|split; [|split]]].
+  - intros b Hb. rewrite H2, bool_decide_eq_true_2 by exact Hb. reflexivity.
+  - intros b Hb. rewrite H2, bool_decide_eq_false_2 by exact Hb. reflexivity.
+  - eexists. split; [exact H3|]. split.
+    + rewrite rev_length. generalize (elements (s_calls sv)). intros l. induction l as [|b l IH]; cbn; [reflexivity|].
+      unfold rm_call_entry at 1. destruct (calls (ms m) !! b) as [cl|]; [|exact IH].
+      destruct (c_aborted cl); cbn; [exact IH|]. rewrite IH. reflexivity.
+    + intros serial c r. rewrite elem_of_list_In, <- in_rev, <- elem_of_list_In, elem_of_list_omap. split.
+      * intros (b & Hb & He). unfold rm_call_entry in He. destruct (calls (ms m) !! b) as [cl|] eqn:Ecl; [|discriminate].
+        destruct (c_aborted cl) eqn:Eab; [discriminate|]. injection He as <- <- <-. split; [reflexivity|].
+        exists b, cl. apply elem_of_elements in Hb. auto.
+      * intros (-> & b & cl & Hb & Ecl & Eab & <- & <-). exists b. split; [apply elem_of_elements, Hb|].
+        unfold rm_call_entry. rewrite Ecl, Eab. reflexivity.
+  - rewrite H6. reflexivity.
+  - rewrite H6. reflexivity.
+Qed.
+
+(* the work loop turns a queued entry into exactly one reply to a connected caller and forgets the
+   caller's serial; for a caller that is gone the entry is dropped *)
+Lemma settle_one_rm_call m serial c r rest :
+  w_remove_conns (mw m) = [] -> w_unsub_ev (mw m) = [] -> w_unsub_all (mw m) = [] ->
+  w_svc_destroyed (mw m) = [] -> w_rm_call (mw m) = (serial, c, r) :: rest ->
+  settle_one m =
+    Some (let m := m <| mw; w_rm_call := rest |> in
+          match conns (ms m) !! c with
+          | None => Done m
+          | Some cs =>
+              match cs_calls cs !! serial with
+              | None => Panic 15
+              | Some _ =>
+                  let m' := m <| ms; conns ::= <[c := cs <| cs_calls ::= delete serial |>]> |> in
+                  send_or_remove m' c (CallFunctionReply serial r) None
+              end
+          end).
+Proof. intros H1 H2 H3 H4 H5. unfold settle_one. rewrite H1, H2, H3, H4, H5. reflexivity. Qed.
+
+Theorem settle_one_rm_call_alive m serial c r rest cs p :
+  w_remove_conns (mw m) = [] -> w_unsub_ev (mw m) = [] -> w_unsub_all (mw m) = [] ->
+  w_svc_destroyed (mw m) = [] -> w_rm_call (mw m) = (serial, c, r) :: rest ->
+  conns (ms m) !! c = Some cs -> cs_alive cs = true -> cs_calls cs !! serial = Some p ->
+  settle_one m =
+    Some (Done (m <| mw; w_rm_call := rest |>
+                  <| ms; conns ::= <[c := cs <| cs_calls ::= delete serial |>]> |>
+                  <| mo := mo m ++ [(c, CallFunctionReply serial r, None)] |>)).
+Proof.
+  intros H1 H2 H3 H4 H5 Hc Ha Hp. rewrite (settle_one_rm_call m serial c r rest) by assumption. cbv zeta.
+  cbn [ms set]. rewrite Hc, Hp.
+  erewrite send_or_remove_alive; [reflexivity|cbn; apply lookup_insert|exact Ha].
+Qed.
+
+Theorem settle_one_rm_call_gone m serial c r rest :
+  w_remove_conns (mw m) = [] -> w_unsub_ev (mw m) = [] -> w_unsub_all (mw m) = [] ->
+  w_svc_destroyed (mw m) = [] -> w_rm_call (mw m) = (serial, c, r) :: rest ->
+  conns (ms m) !! c = None ->
+  settle_one m = Some (Done (m <| mw; w_rm_call := rest |>)).
+Proof.
+  intros H1 H2 H3 H4 H5 Hc. rewrite (settle_one_rm_call m serial c r rest) by assumption. cbv zeta.
+  cbn [ms set]. rewrite Hc. reflexivity.
 Qed.
